@@ -97,6 +97,9 @@ impl<T> Matrix<T> {
         if m >= self.major() || n >= self.major() {
             return Err(Error::IndexOutOfBounds);
         }
+        if m == n {
+            return Ok(self);
+        }
         let base = self.data.as_mut_ptr();
         let index = m * self.major_stride();
         let jndex = n * self.major_stride();
